@@ -151,3 +151,45 @@ def require_attr(obj, name):
     if not hasattr(obj, name):
         raise MachineryError("internal attribute %s.%s (named by the property anchors) no longer exists" % (type(obj).__name__, name))
     return getattr(obj, name)
+
+
+# ----- added for the `reassign` part (C15 round 4): values handed to public setters, dense views of what is read back ----
+def mean_value(case):
+    """Prior mean of a case as it is handed to the constructor / the `mean` setter: a scalar for scalar means of a
+    Gaussian, the vector otherwise (GMRF documents an array-like mean)."""
+    mu = np.array(case["prior"]["blocks"][0]["mu"], dtype=float)
+    if case["mk"] == "scalar" and case["prior"]["kind"] != "gmrf":
+        return float(mu[0])
+    return mu
+
+
+def prior_assignment(case):
+    """(attribute name, value) of the prior's parameter for the public setter of that input form."""
+    pr = case["prior"]
+    if pr["kind"] == "gmrf":
+        return "prec", float(pr["delta"])
+    (form, val), = gauss_kwargs(pr).items()
+    return form, val
+
+
+def noise_assignment(case):
+    (form, val), = gauss_kwargs(case["noise"]).items()
+    return form, val
+
+
+def dense(M):
+    """ndarray view of a matrix read back from a distribution (scipy sparse / np.matrix / ndarray)."""
+    if hasattr(M, "toarray"):
+        M = M.toarray()
+    return np.asarray(M, dtype=float)
+
+
+def expand_diag(v, dim):
+    """A covariance / precision read back from a Gaussian, as a dim x dim matrix: Gaussian documents that a scalar or
+    1-d array defines the diagonal entries."""
+    v = dense(v)
+    if v.size == 1:
+        return float(v.ravel()[0]) * np.eye(dim)
+    if v.ndim == 1:
+        return np.diag(v)
+    return v
